@@ -1,4 +1,4 @@
-import GrinVerif.Lemmas.PoolBlock
+import GrinVerif.Lemmas.PoolAvail
 /-! C14 — the transaction pool always holds a jointly valid, fee-paying, mineable set.
 
 Model: `GrinVerif/Model/Pool.lean` (pool/src/pool.rs, pool/src/transaction_pool.rs).
@@ -217,6 +217,337 @@ theorem low_fee_admitted_over_capacity :
     ((run (lc, {}) lOps).2.addToPool lc .broadcast lowChild false true).2 = none ∧
     ((run (lc, {}) lOps).2.addToPool lc .broadcast lowChild false true).1.txpool.txs = [wA, lowChild] := by
   decide
+
+/-! ## inputs of pooled transactions across evictions at capacity
+
+`pool_inv` covers histories without eviction.  The theorems of this section hold for ALL
+histories.  They say where exactly an eviction can leave an input without a source (the recorded
+finding C14-evict-breaks-joint-validity: a child that is ALREADY in the pool when its parent is
+evicted), and that nothing else can: a transaction submitted AFTER the eviction that spends an
+output of the evicted transaction is refused, on the fluff and on the stem path, and any
+admission without eviction re-validates the whole txpool. -/
+
+/-- the list the driver prints (`av=` / `avs=`) and compares with the real pool is empty exactly
+when every input is available -/
+theorem orphans_decides_avail (utxo : List Nat) (txs : List Tx) : orphans utxo txs = [] ↔ Avail utxo txs :=
+  orphans_nil_iff utxo txs
+
+/-- joint validity implies that every input is unspent at the head or created in the list -/
+theorem jointlyValid_avail {outs : List GV.Chain.OutDef} {utxo : List Nat} {txs : List Tx}
+    (h : JointlyValid outs utxo txs) : Avail utxo txs :=
+  avail_of_netOK ((jointlyValid_iff outs utxo txs).mp h).1
+
+/-- the submitted transaction itself is what the pool considers when it has at most one kernel
+(no deaggregation) -/
+theorem entryOf_single {s : TxPool} {src : Src} {tx : Tx} (hk : tx.kers.length ≤ 1) (st : Bool) :
+    entryOf s src tx st = .ok { tx, src } := by
+  unfold entryOf TxPool.deaggregateTx
+  have : ¬ (tx.kers.length > 1) := by omega
+  cases st <;> simp [this]
+
+/-- **a transaction with an input that exists nowhere is refused and the pool is unchanged** —
+from ANY state, whatever happened before.  `entryOf`: the transaction itself (stem) or its
+deaggregated form (fluff).  Fluff: the input is neither unspent at the head nor created in the
+txpool; stem: nor created in the stempool. -/
+theorem missing_input_refused {c : Ctx} {s : TxPool} (src : Src) (tx : Tx) (stem stemOk : Bool)
+    (hmiss : ∀ st e, entryOf s src tx st = .ok e → ∃ i ∈ e.tx.ins, i ∉ utxoIds c ∧
+      i ∉ allOuts s.txpool.txs ∧ (st = true → i ∉ allOuts s.stempool.txs)) :
+    ∃ er, s.addToPool c src tx stem stemOk = (s, some er) := by
+  unfold TxPool.addToPool
+  split
+  · exact addCore_refuses_missing_input src tx false stemOk (hmiss false)
+  · exact addCore_refuses_missing_input src tx stem stemOk (hmiss stem)
+
+/-- **a child of an evicted transaction, submitted after the eviction, is refused**: `i` is an
+output of a transaction that is no longer in the pool (so it is created nowhere) and never
+reached the chain.  Both paths, any fee, any source, any later state of the history (`s` is
+arbitrary; instantiate it with `(run (c, {}) ops).2`). -/
+theorem child_of_evicted_refused {c : Ctx} {s : TxPool} (src : Src) (tx : Tx) (stem stemOk : Bool)
+    (hk : tx.kers.length ≤ 1) {i : Nat} (hi : i ∈ tx.ins) (hu : i ∉ utxoIds c)
+    (htp : i ∉ allOuts s.txpool.txs) (hsp : i ∉ allOuts s.stempool.txs) :
+    ∃ er, s.addToPool c src tx stem stemOk = (s, some er) := by
+  apply missing_input_refused
+  intro st e he
+  rw [entryOf_single hk st] at he
+  simp only [Except.ok.injEq] at he
+  subst he
+  exact ⟨i, hi, hu, htp, fun _ => hsp⟩
+
+/-- **any admission without eviction validates the whole txpool**: if a submission is admitted
+while the txpool is not over `max_pool_size` and the transaction went to the txpool (fluff, or a
+stem transaction the relay did not take), then — whatever the state was before — every input of
+every txpool transaction, and of every stempool transaction, is available. -/
+theorem admission_validates_pool {c : Ctx} {s s' : TxPool} (src : Src) (tx : Tx) (stemOk : Bool)
+    (hcap : s.txpool.length ≤ c.cfg.maxPool) (h : s.addToPool c src tx false stemOk = (s', none)) :
+    Avail (utxoIds c) s'.txpool.txs ∧ Avail (utxoIds c) (s'.stempool.txs ++ s'.txpool.txs) := by
+  obtain ⟨stem', hst, hout⟩ := addToPool_outcome c s src tx false stemOk
+  have hs := hst rfl
+  subst hs
+  rw [h] at hout
+  cases hout with
+  | refused er he => simp at he
+  | stemmed hs _ _ _ => simp at hs
+  | added _ _ h1 h2 => exact ⟨avail_of_txpoolOK h1, avail_of_netOK h2⟩
+  | evicted p _ _ hc _ _ _ => omega
+
+/-- **an eviction orphans only children of the evicted transaction**: `Pool::evict_transaction`
+applied to a pool all of whose inputs are available leaves without a source only inputs that are
+outputs of the evicted transaction `E`; the transactions concerned were in the pool when `E` was
+evicted. -/
+theorem evict_orphans_only_children {c : Ctx} {utxo : List Nat} {p : Pool} (h : Avail utxo p.txs) :
+    ∀ t ∈ (p.evict c).txs, t ∈ p.txs ∧ ∀ i ∈ t.ins, i ∈ utxo ∨ i ∈ allOuts (p.evict c).txs ∨
+      ∃ E, p.evictee c = some E ∧ E ∉ (p.evict c).txs ∧ i ∈ E.outs :=
+  evict_orphans h
+
+/-- **an admission at capacity** (`TransactionPool::add_to_pool` returning `Ok` while the txpool
+holds more than `max_pool_size` entries): the txpool `p` with the new entry was validated as a
+whole, then one transaction `E` was evicted from it; from ANY previous state, the only inputs
+without a source afterwards are outputs of `E`, in transactions that were in `p` — the children
+of `E` already pooled when `E` was evicted (the recorded finding).  The stempool is not touched. -/
+theorem admission_at_capacity {c : Ctx} {s s' : TxPool} (src : Src) (tx : Tx) (stem stemOk : Bool)
+    (hcap : s.txpool.length > c.cfg.maxPool) (h : s.addToPool c src tx stem stemOk = (s', none)) :
+    ∃ p : Pool, Avail (utxoIds c) p.txs ∧ s'.txpool = p.evict c ∧
+      ∀ t ∈ s'.txpool.txs, t ∈ p.txs ∧ ∀ i ∈ t.ins, i ∈ utxoIds c ∨ i ∈ allOuts s'.txpool.txs ∨
+        ∃ E, p.evictee c = some E ∧ E ∉ s'.txpool.txs ∧ i ∈ E.outs := by
+  obtain ⟨stem', _, hout⟩ := addToPool_outcome c s src tx stem stemOk
+  rw [h] at hout
+  cases hout with
+  | refused er he => simp at he
+  | stemmed _ hc _ _ => omega
+  | added _ hc _ _ => omega
+  | evicted p _ _ _ h1 h2 h3 =>
+    refine ⟨p, avail_of_txpoolOK h1, h2, ?_⟩
+    simp only at h2
+    rw [h2]
+    exact evict_orphans (avail_of_txpoolOK h1)
+
+/-- **admitted_inputs_available** — for ALL histories (submissions of any transactions on both
+paths, blocks and reorgs with any unspent sets, reorg-cache replays, evictions explicit and at
+capacity, truncations), starting from the empty pool: every input of every transaction in the
+txpool is unspent on the head or created by a txpool transaction, and every input of every
+stempool transaction is unspent or created in stempool ∪ txpool — EXCEPT for transactions in
+`staleRun`, the ghost list defined in `Lemmas/PoolAvail.lean`: the transactions that were in the
+pool right after the most recent eviction since the last block.  So a transaction admitted after
+the last eviction never has an unavailable input (and by `child_of_evicted_refused` a child of
+the evicted transaction is not admitted at all); which inputs of the stale transactions can be
+unavailable is `admission_at_capacity` / `evict_orphans_only_children`: outputs of the evicted
+transaction only. -/
+theorem admitted_inputs_available (c : Ctx) (ops : List Op) :
+    (∀ t ∈ (run (c, {}) ops).2.txpool.txs, t ∈ staleRun (c, {}) [] ops ∨
+      ∀ i ∈ t.ins, i ∈ utxoIds (run (c, {}) ops).1 ∨ i ∈ allOuts (run (c, {}) ops).2.txpool.txs) ∧
+    (∀ t ∈ (run (c, {}) ops).2.stempool.txs ++ (run (c, {}) ops).2.txpool.txs,
+      t ∈ staleRun (c, {}) [] ops ∨
+      ∀ i ∈ t.ins, i ∈ utxoIds (run (c, {}) ops).1 ∨
+        i ∈ allOuts ((run (c, {}) ops).2.stempool.txs ++ (run (c, {}) ops).2.txpool.txs)) :=
+  ⟨(run_avInv (c, {}) [] ops (avInv_empty c)).tx, (run_avInv (c, {}) [] ops (avInv_empty c)).both⟩
+
+/-- what the ghost list is: empty as long as nothing was evicted … -/
+theorem stale_empty_without_eviction (c : Ctx) (ops : List Op) (hne : NoEvict (c, {}) ops) :
+    staleRun (c, {}) [] ops = [] :=
+  staleRun_noEvict (c, {}) ops hne
+
+theorem staleRun_append (cs : Ctx × TxPool) (old : List Tx) (ops ops' : List Op) :
+    staleRun cs old (ops ++ ops') = staleRun (run cs ops) (staleRun cs old ops) ops' := by
+  induction ops generalizing cs old with
+  | nil => rfl
+  | cons op rest ih => simp only [List.cons_append, staleRun, run, List.foldl_cons]; exact ih _ _
+
+/-- … emptied by every block (or reorg), whatever happened before … -/
+theorem stale_empty_after_block (c : Ctx) (ops : List Op) (head : GV.Chain.UState) (ver : Nat)
+    (ins kers : List Nat) : staleRun (c, {}) [] (ops ++ [.block head ver ins kers]) = [] := by
+  rw [staleRun_append]; rfl
+
+/-- … and left alone by every operation that does not evict: a submission that is refused, or
+admitted while the txpool is not over `max_pool_size`, a reorg-cache replay, a truncation. -/
+theorem stale_unchanged (cs : Ctx × TxPool) (old : List Tx) (op : Op) (hne : ¬ evicts cs op)
+    (hb : ∀ head ver ins kers, op ≠ .block head ver ins kers) : staleStep cs old op = old := by
+  cases op with
+  | submit src tx stem ok =>
+    have : ¬ (cs.2.txpool.length > cs.1.cfg.maxPool) := hne
+    simp [staleStep, this]
+  | block head ver ins kers => exact absurd rfl (hb head ver ins kers)
+  | evict => exact absurd trivial hne
+  | reorgCache => rfl
+  | truncate n => rfl
+
+/-- corollary: in a history whose operations after the last block evict nothing, every input is
+available — in particular right after every block -/
+theorem inputs_available_after_block (c : Ctx) (ops : List Op) (head : GV.Chain.UState) (ver : Nat)
+    (ins kers : List Nat) :
+    Avail (utxoIds (run (c, {}) (ops ++ [.block head ver ins kers])).1)
+      (run (c, {}) (ops ++ [.block head ver ins kers])).2.txpool.txs := by
+  intro t ht
+  have h := (admitted_inputs_available c (ops ++ [.block head ver ins kers])).1 t ht
+  rw [stale_empty_after_block] at h
+  rcases h with h | h
+  · simp at h
+  · exact h
+
+/-! ### witness: a child submitted after the eviction (`max_pool_size = 1`)
+
+A (fee rate 4) and B (fee rate 1, two outputs) fill the pool beyond capacity; admitting D evicts
+B.  A transaction spending B's output 12 — paying far more than anything in the pool, so it would
+not be the next eviction victim — is then refused on the fluff path (its input exists nowhere:
+`Other`, the error of `validate_inputs`) and on the stem path (`OverCapacity`: after an eviction
+at capacity the txpool still holds `max_pool_size + 1` entries, and `is_acceptable` refuses every
+stem transaction in that state before anything else is looked at); after one more (explicit)
+eviction the txpool is back at `max_pool_size` and the stem path refuses the child for its
+missing input too.  The pool stays jointly valid throughout, and the same child is admitted when
+its parent is in the pool. -/
+def ec : Ctx where
+  cfg := { maxPool := 1, feeBase := 1 }
+  outs := [od 1 1000, od 2 1000, od 3 1000, od 11 900, od 12 500, od 15 454, od 14 900, od 16 100]
+  head := { utxo := [(1, 0, false), (2, 0, false), (3, 0, false)], nrd := [], height := 5 }
+  ver := 3
+/-- fee rate 1, two outputs -/ def eB : Tx := { ins := [2], outs := [12, 15], kers := [pk 2 46] }
+/-- child of B, fee rate 16 -/ def eChild : Tx := { ins := [12], outs := [16], kers := [pk 6 400] }
+def eOps : List Op :=
+  [.submit .broadcast wA false true, .submit .broadcast eB false true, .submit .broadcast wD false true]
+
+theorem child_after_eviction_witness :
+    (run (ec, {}) eOps).2.txpool.txs = [wA, wD] ∧
+    ((run (ec, {}) eOps).2.addToPool ec .broadcast eChild false true).2 = some "Other" ∧
+    ((run (ec, {}) eOps).2.addToPool ec .pushApi eChild true true).2 = some "OverCapacity" ∧
+    (run (ec, {}) (eOps ++ [.evict])).2.txpool.txs = [wA] ∧
+    ((run (ec, {}) (eOps ++ [.evict])).2.addToPool ec .pushApi eChild true true).2 = some "Other" ∧
+    ((run (ec, {}) (eOps ++ [.evict])).2.addToPool ec .pushApi eChild false true).2 = some "Other" ∧
+    orphans (utxoIds ec) (run (ec, {}) eOps).2.txpool.txs = [] ∧
+    jointlyValidB ec.outs (utxoIds ec) (run (ec, {}) eOps).2.txpool.txs = true ∧
+    -- with its parent in the pool (before the eviction) the same child is admitted
+    ((run (ec, {}) (eOps.take 2)).2.addToPool ec .broadcast eChild false true).2 = none := by
+  decide
+
+/-- non-vacuity of `child_of_evicted_refused` on that state -/
+example : ∃ er, (run (ec, {}) eOps).2.addToPool ec .broadcast eChild true true = ((run (ec, {}) eOps).2, some er) :=
+  child_of_evicted_refused (c := ec) .broadcast eChild true true (by decide) (i := 12) (by decide) (by decide)
+    (by decide) (by decide)
+
+/-- non-vacuity of `admission_at_capacity`: the third submission of the witness evicts -/
+example : ∃ p : Pool, Avail (utxoIds ec) p.txs ∧ (run (ec, {}) eOps).2.txpool = p.evict ec :=
+  let ⟨p, h1, h2, _⟩ := admission_at_capacity (c := ec) (s := (run (ec, {}) (eOps.take 2)).2)
+    (s' := (run (ec, {}) eOps).2) .broadcast wD false true (by decide) (by decide)
+  ⟨p, h1, h2⟩
+
+/-- non-vacuity of `admitted_inputs_available`: in witness 1 (the recorded finding) the ghost list
+is exactly the pool after the eviction and C — pooled BEFORE its parent B was evicted — is the
+transaction with the unavailable input; in the new witness nothing has an unavailable input. -/
+example : staleRun (wc, {}) [] (wOps ++ [.submit .broadcast wD false true]) = [wA, wC, wD] ∧
+    orphans (utxoIds wc) (run (wc, {}) (wOps ++ [.submit .broadcast wD false true])).2.txpool.txs = [(wC, 12)] := by
+  decide
+
+/-- non-vacuity of `admission_validates_pool` -/
+example : Avail (utxoIds wc) (run (wc, {}) (wOps.take 2)).2.txpool.txs :=
+  (admission_validates_pool (c := wc) (s := (run (wc, {}) (wOps.take 1)).2) .broadcast wB true (by decide)
+    (show _ = ((run (wc, {}) (wOps.take 2)).2, none) by decide)).1
+
+/-! ## weight limit and submission form -/
+
+/-- **overweight_never_admitted** — after ANY history no entry of the txpool, the stempool or the
+reorg cache exceeds `global::max_tx_weight()`. -/
+theorem overweight_never_admitted (c : Ctx) (ops : List Op) :
+    ∀ e, (e ∈ (run (c, {}) ops).2.txpool ∨ e ∈ (run (c, {}) ops).2.stempool ∨ e ∈ (run (c, {}) ops).2.cache) →
+      e.tx.weight ≤ c.cfg.maxTxW := by
+  intro e he
+  have hv := validate_weight (entries_always_valid c ops e he)
+  rw [run_cfg] at hv
+  simp only [overWeight, maxWeight, decide_eq_false_iff_not, Nat.not_lt] at hv
+  exact hv
+
+/-- the weight does not depend on the form of the inputs -/
+theorem weight_form_independent (r : SubTx) :
+    r.tx.weight = r.inputs.commits.length * 1 + r.outs.length * 21 + r.kers.length * 3 := rfl
+
+/-- **an over-weight transaction is refused in either input form, on either path**, the pool
+unchanged, whatever its fill state (single-kernel transaction: no deaggregation involved). -/
+theorem overweight_refused_any_form {c : Ctx} {s : TxPool} (src : Src) (r : SubTx) (stem stemOk : Bool)
+    (hk : r.kers.length ≤ 1)
+    (hw : r.inputs.commits.length * 1 + r.outs.length * 21 + r.kers.length * 3 > c.cfg.maxTxW) :
+    ∃ er, s.submit c src r stem stemOk = (s, some er) := by
+  unfold TxPool.submit
+  apply admission_over_weight
+  intro st e he
+  rw [entryOf_single (tx := r.tx) hk st] at he
+  simp only [Except.ok.injEq] at he
+  subst he
+  exact hw
+
+/-- two submitted forms of one transaction: same commitments spent, same outputs, kernels, faults,
+input vector well ordered for its variant or not.  The variant and the features *claimed* by
+"features and commit" inputs are free. -/
+def SameTx (r₁ r₂ : SubTx) : Prop :=
+  r₁.inputs.commits = r₂.inputs.commits ∧ r₁.sorted = r₂.sorted ∧ r₁.outs = r₂.outs ∧
+  r₁.kers = r₂.kers ∧ r₁.tags = r₂.tags
+
+theorem sameTx_tx {r₁ r₂ : SubTx} (h : SameTx r₁ r₂) : r₁.tx = r₂.tx := by
+  obtain ⟨h1, h2, h3, h4, h5⟩ := h
+  simp [SubTx.tx, h1, h2, h3, h4, h5]
+
+/-- **form_independent_admission** — the verdict of `TransactionPool::add_to_pool` and the
+resulting txpool, stempool and reorg cache do not depend on the form in which the inputs were
+submitted nor on the features "features and commit" inputs claim. -/
+theorem form_independent_admission (c : Ctx) (s : TxPool) (src : Src) {r₁ r₂ : SubTx} (h : SameTx r₁ r₂)
+    (stem stemOk : Bool) : s.submit c src r₁ stem stemOk = s.submit c src r₂ stem stemOk := by
+  unfold TxPool.submit; rw [sameTx_tx h]
+
+/-- in particular: re-encoding commit-only inputs as "features and commit" with ANY claimed
+features changes nothing (`convert_tx_v2` overwrites the claims with the looked-up features) -/
+theorem form_independent_v2 (c : Ctx) (s : TxPool) (src : Src) (cs outs : List Nat) (kers : List PKer)
+    (tags : List String) (claim : Nat → Bool) (stem stemOk : Bool) :
+    s.submit c src { inputs := .commitOnly cs, outs, kers, tags } stem stemOk =
+    s.submit c src { inputs := .featuresAndCommit (cs.map fun i => (claim i, i)), outs, kers, tags } stem stemOk :=
+  form_independent_admission c s src (r₁ := { inputs := .commitOnly cs, outs, kers, tags })
+    (r₂ := { inputs := .featuresAndCommit (cs.map fun i => (claim i, i)), outs, kers, tags })
+    ⟨by simp [Inputs.commits, Function.comp_def], rfl, rfl, rfl, rfl⟩ stem stemOk
+
+/-- the stored (relayed) form depends on the commitments and the head only -/
+theorem stored_form_independent (c : Ctx) {r₁ r₂ : SubTx} (h : SameTx r₁ r₂) :
+    storedInputs c r₁.tx = storedInputs c r₂.tx := by rw [sameTx_tx h]
+
+/-- a submission in a given form as an operation of a history -/
+def subOp (src : Src) (r : SubTx) (stem stemOk : Bool) : Op := .submit src r.tx stem stemOk
+
+/-- form independence for whole histories: replacing, anywhere in a history, submissions by other
+forms of the same transactions leaves every later state unchanged -/
+theorem form_independent_history (cs : Ctx × TxPool) (pre post : List Op) (src : Src) {r₁ r₂ : SubTx}
+    (h : SameTx r₁ r₂) (stem stemOk : Bool) :
+    run cs (pre ++ subOp src r₁ stem stemOk :: post) = run cs (pre ++ subOp src r₂ stem stemOk :: post) := by
+  unfold subOp; rw [sameTx_tx h]
+
+/-- a wrongly ordered input vector (e.g. "features and commit" inputs left in commitment order)
+fails standalone validation: refused on both paths, pool unchanged -/
+theorem unsorted_inputs_refused {c : Ctx} {s : TxPool} (src : Src) (r : SubTx) (stem stemOk : Bool)
+    (hk : r.kers.length ≤ 1) (hs : r.sorted = false) :
+    ∃ er, s.submit c src r stem stemOk = (s, some er) := by
+  unfold TxPool.submit
+  apply admission_invalid
+  intro st e he
+  rw [entryOf_single (tx := r.tx) hk st] at he
+  simp only [Except.ok.injEq] at he
+  subst he
+  have ht : r.tx.tags.contains "unsorted" = true := by simp [SubTx.tx, hs]
+  unfold Tx.validate
+  repeat (split; · simp)
+  simp [ht] at *
+
+/-- non-vacuity: 1 input + 11 outputs + 1 kernel = weight 235 > 226 in both forms on both paths;
+a valid transaction is admitted in both forms (claimed features wrong in the second), with the
+same resulting pool; the unsorted "features and commit" vector is refused -/
+def heavyV3 : SubTx := { inputs := .commitOnly [3], outs := List.range 11, kers := [pk 4 5000] }
+def heavyV2 : SubTx := { heavyV3 with inputs := .featuresAndCommit [(false, 3)] }
+def goodV3 : SubTx := { inputs := .commitOnly [3], outs := [14], kers := [pk 4 100] }
+def goodV2 : SubTx := { goodV3 with inputs := .featuresAndCommit [(true, 3)] }
+example : (({} : TxPool).submit wc .pushApi heavyV3 false true).2 = some "InvalidTx:TooHeavy" ∧
+    (({} : TxPool).submit wc .pushApi heavyV2 false true).2 = some "InvalidTx:TooHeavy" ∧
+    (({} : TxPool).submit wc .pushApi heavyV3 true true).2 = some "InvalidTx:TooHeavy" ∧
+    (({} : TxPool).submit wc .pushApi heavyV2 true true).2 = some "InvalidTx:TooHeavy" := by decide
+example : ∃ er, ({} : TxPool).submit wc .pushApi heavyV2 true true = ({}, some er) :=
+  overweight_refused_any_form .pushApi heavyV2 true true (by decide) (by decide)
+example : SameTx goodV3 goodV2 := by unfold SameTx; decide
+example : (({} : TxPool).submit wc .pushApi goodV2 false true).2 = none ∧
+    ({} : TxPool).submit wc .pushApi goodV2 false true = ({} : TxPool).submit wc .pushApi goodV3 false true :=
+  ⟨by decide, (form_independent_admission wc {} .pushApi (by unfold SameTx; decide) false true).symm⟩
+example : (({} : TxPool).submit wc .pushApi { goodV2 with sorted := false } true true).2 =
+    some "InvalidTx:Serialization" := by decide
 
 /-! ## the mineable set -/
 
